@@ -620,6 +620,10 @@ def run(ctx):
     from . import c11 as _c11
 
     _c11.refinement(ctx)  # barycentric spaces live on the barycentric grid: its children, midpoints and inherited domain indices
+    from .. import misc_guards as _mg, spaces as _sp
+
+    _mg.inverse_dof_map(ctx)  # (tools/wiring.py) barycentric / dual spaces are built from the coarse space's dof maps and segment options
+    _sp.normal_multipliers(ctx)
 
 
 def _builder_chains(fn):
